@@ -191,3 +191,6 @@ def run(ctx):
     ctx.ob("C06.R5", s, "both operands get the alias treatment", sides == {pt, pr}, construct="both-sides", detail=str(sorted(sides)))
     last = he.body[-1]
     ctx.ob("C06.R5", s, "only after all of that the answer is False", isinstance(last, ast.Return) and norm(last.value) == "False", construct="false-last")
+    # ---- R6: the instruction-level facts liveness is computed from ----------
+    from .c07 import register_api
+    register_api(ctx, "C06.R6")
